@@ -28,7 +28,7 @@ def machine_cfg(kind, n, m, depth, mode, ops_def, mant=53, nr=2, props=True, loa
     else:
         plist = ["ReTransparent", "AbsentIsZero"] if props else []
     return cfg(spec=("SpecSim" if mode == "sim" else "Spec"), constants={"Kind": kind, "N": n, "M": m, "NR": nr, "Depth": depth, "Mode": mode, "Mant": mant},
-               overrides={"Inner": INNER[inner], "LoadSet": loadset, "ReGrid": "ReGridSmall", "PartGrid": "PartGridSmall",
+               overrides={**({"Inner": INNER[inner]} if inner else {}), "LoadSet": loadset, "ReGrid": "ReGridSmall", "PartGrid": "PartGridSmall",
                           "ScalarGrid": "ScalarGridSmall", "PowSet": "PowSetSmall", "OpFilter": ops_def},
                invariants=["Emit"], properties=plist,
                view="View")
@@ -37,7 +37,8 @@ def machine_cfg(kind, n, m, depth, mode, ops_def, mant=53, nr=2, props=True, loa
 def machine_run(kind, n, m, ops_def, depth=3, mode="bfs", mant=53, nr=2, workers=3, simulate=None, tag="",
                 timeout=900, props=True, loadset="LoadSetGeneric", inner=None):
     name = "mach_%s%s_%d_%d_%s_%d%s" % (kind, "_in_" + inner if inner else "", n, m, mode, mant, tag)
-    return run_tlc("Machine.tla", machine_cfg(kind, n, m, depth, mode, ops_def, mant, nr, props, loadset, inner), name,
+    # nested types: MachineN.tla / CalcN.tla are generated from Machine.tla / Calc.tla (tools/gen_nested.py)
+    return run_tlc("MachineN.tla" if inner else "Machine.tla", machine_cfg(kind, n, m, depth, mode, ops_def, mant, nr, props, loadset, inner), name,
                    workers=workers, simulate=simulate, depth=(depth + 1 if simulate else None), timeout=timeout)
 
 
@@ -139,7 +140,7 @@ KEY_OF = {  # (kind, n, m) -> concrete configurations to record traces from
 
 
 def trace_cfg(kind, n, m, nr, mant):
-    return cfg(constants={"Kind": kind, "N": n, "M": m, "NR": nr, "Mant": mant}, overrides={"Inner": "InnerF"}, invariants=["Done"],
+    return cfg(constants={"Kind": kind, "N": n, "M": m, "NR": nr, "Mant": mant}, invariants=["Done"],
                postcondition="Accepted")
 
 
